@@ -167,6 +167,12 @@ func (e *Engine) trIdent(env *SpecEnv, name string) Val {
 	if name == "$i" {
 		return e.loopCounter(env)
 	}
+	if name == "$n" {
+		if env.loop == nil {
+			e.specFail(env, "$n outside a loop invariant")
+		}
+		return intVal(e.heapIn(env.st, iterName(env.loop), "Int"))
+	}
 	// local variable of the function under verification (invariants)
 	if env.fc != nil {
 		if v, ok := e.localByName(env, name); ok {
@@ -652,6 +658,9 @@ func (e *Engine) trCall(env *SpecEnv, n SCall) Val {
 			cur = "(pathJoin " + cur + " " + arg(k).T + ")"
 		}
 		return Val{T: cur, S: "String", GoT: tString}
+	case "lastCopied":
+		// number of bytes the most recent io.Copy call reported
+		return intVal(e.heapIn(env.st, "GH_io.lastCopied", "Int"))
 	case "sprintf1":
 		// sprintf1("format", x): fmt.Sprintf(format, x)
 		x := arg(1)
